@@ -18,6 +18,9 @@ fn owns(v: &StepViolation) -> bool {
     match v.kind {
         Kind::OutsideChanged => true,
         Kind::Panic => !is_nonsep_overflow(v),
+        // a call other than set_transform that changes the transform makes every later draw
+        // land outside the shape the caller described
+        Kind::StateChanged => v.clause.ends_with("leaves-transform"),
         _ => false,
     }
 }
@@ -238,6 +241,39 @@ impl Check for C02 {
             });
         }
         let _ = dst_cols;
+        // draws that follow calls which must change nothing (state carried from earlier calls:
+        // a transform lost, a clip or layer left behind, edges left in the rasteriser)
+        {
+            let (w, h) = (6, 5);
+            let (wf, hf) = (w as f32, h as f32);
+            let tri = PathSpec::poly(&[(0.5, 0.25), (wf - 0.25, 1.0), (1.0, hf - 0.5)]);
+            let noops: Vec<Vec<Op>> = vec![
+                vec![Op::PushClipRect(5, 4, 1, 1), Op::PushLayer(1.0, BlendMode::SrcOver), Op::PopLayer, Op::PopClip],
+                vec![Op::PushClipRect(0, 0, 2, h), Op::PushClipRect(3, 0, w, h), Op::PushLayer(0.5, BlendMode::Src), Op::Fill(tri.clone(), SrcSpec::Solid(0xff204080), Opts::default()), Op::PopLayer, Op::PopClip, Op::PopClip],
+                vec![Op::PushLayer(0.5, BlendMode::SrcOver), Op::PopLayer],
+                vec![Op::PushClipRect(5, 4, 1, 1), Op::Fill(tri.clone(), SrcSpec::Solid(0xff204080), Opts::default()), Op::Clear(0xffffffff), Op::PushClip(tri.clone()), Op::PopClip, Op::PopClip],
+                vec![Op::PushClip(PathSpec::rect(-9., -9., 3., 3.)), Op::PushLayer(1.0, BlendMode::SrcOver), Op::Clear(0x80002040), Op::PopLayer, Op::PopClip],
+                vec![Op::Stroke(tri.clone(), StyleSpec { width: 0.0, cap: 0, join: 0, miter: 4., dash: vec![], offset: 0. }, SrcSpec::Solid(0xffffffff), Opts::default()), Op::Fill(PathSpec::rect(-5., -5., 2., 2.), SrcSpec::Solid(0xffffffff), Opts::default())],
+            ];
+            let txs: Vec<Xf> = vec![[1., 0., 0., 1., 2., 1.], [0.5, 0., 0., 0.5, 1.5, 0.25], [0.8660254, 0.5, -0.5, 0.8660254, 2., -1.]];
+            let srcs2 = [SrcSpec::Solid(0x80002040), SrcSpec::Linear { stops: ramp(), spread: Spr::Pad, p: [0., 0., 4., 3.] }];
+            run.bound("draws after no-op calls", format!("{} transforms x {} blocks of calls that must change nothing (layers under empty clips, empty layers, draws and clear under an empty clip, off-surface clip paths, zero-width strokes) x 13 shapes x 2 modes x 2 sources on {}x{}", txs.len(), noops.len(), w, h));
+            run.par(noops.len() * txs.len(), |i, l| {
+                let block = &noops[i / txs.len()];
+                let xf = txs[i % txs.len()];
+                for mode in [BlendMode::SrcOver, BlendMode::Src] {
+                    for src in &srcs2 {
+                        for probe in probes(w, h, src, Opts { mode, alpha: 1.0, aa: true }) {
+                            let mut ops = vec![Op::SetTransform(xf)];
+                            ops.extend(block.iter().cloned());
+                            ops.push(probe);
+                            let scene = Scene { w, h, dst: Dst::Distinct, ops };
+                            run_one(run, 30_000 + i, l, &scene);
+                        }
+                    }
+                }
+            });
+        }
         // long strips (spans and masks beyond 256 / 1024 / 2048 / 8192 pixels)
         let hmodes = [BlendMode::SrcOver, BlendMode::Src, BlendMode::Clear, BlendMode::DstIn];
         run.bound("wide-tall", format!("the long-strip scenes shared with C03 (300x2, 2x300, 8200x2, 2x8200; far-end draws, full-length sliver fill, full-length mask) x {} modes", hmodes.len()));
